@@ -56,7 +56,7 @@ theorem snapGetReader_frame (s : St) (i f : Nat) (keep : Bool) : Frame s (snapGe
 macro "frame_tac" : tactic =>
   `(tactic| (constructor <;>
       simp only [jAlloc, allocFile, jCreate, createFiles, jLock, setLock, jSnap, buildVersion, snapAcquire, jSwap,
-        swapVersion, jSnapU, cloneVersion, jLockU, jCheck, jUnlock, jUnpend, unpend, setCompacting, doList, doPend, doActive, doRollup, doEvict,
+        swapVersion, noteFlush, jSnapU, cloneVersion, jLockU, jCheck, jUnlock, jUnpend, unpend, setCompacting, doList, doPend, doActive, doRollup, doEvict,
         evictFile, doRemove, removeFile, jFinish, setPc, St.setJob, St.setSnap, snapDec, snapRel, spawnJob, cleanFiles] <;>
       grind [upd]))
 
